@@ -204,6 +204,8 @@ int main(int argc, char **argv) {
       else if (!strcmp(a, "pipe")) { int p[2]; if (pipe(p)) return 4; } else if (!strcmp(a, "socket")) { int sv[2]; socketpair(AF_UNIX, SOCK_STREAM, 0, sv); }
       else if (!strcmp(a, "eventfd")) eventfd(0, 0);
       /* a file whose name is not valid UTF-8 (opened, then unlinked: nothing is left behind) */
+      /* a file whose name holds characters outside the Basic Multilingual Plane (two UTF-16 units each) */
+      else if (!strcmp(a, "astral")) { char pth[160]; snprintf(pth, sizeof pth, "/tmp/mdw-report_\xf0\x9f\x98\x80_\xf0\xa0\xae\xb7_final-%d-%d.log", (int)getpid(), fl); int o = open(pth, O_RDWR | O_CREAT, 0600); if (o >= 0) unlink(pth); }
       else if (!strcmp(a, "odd")) { char pth[128]; snprintf(pth, sizeof pth, "/tmp/mdw-odd-\xff\xfe-%d-%d.dat", (int)getpid(), fl); int o = open(pth, O_RDWR | O_CREAT, 0600); if (o >= 0) unlink(pth); }
     } else if (sscanf(line, "chain %u %u", &u1, &u2) == 2) {
       unsigned char *m = mmap(0, 3 * 4096, PROT_READ | PROT_WRITE, MAP_PRIVATE | MAP_ANONYMOUS, -1, 0); munmap(m + 8192, 4096);
@@ -246,7 +248,7 @@ int main(int argc, char **argv) {
   printf("READY pid=%d shared=/proc/%d/fd/%d blk=%lx spin=%lx", getpid(), getpid(), mfd, (unsigned long)blk_after_syscall, (unsigned long)spin_loop);
   for (int i = 0; i < NT; i++) printf(" t%d.tid=%d", i, T[i].tid);
   printf("%s\n", facts); fflush(stdout);
-  char cmd[64];
+  char cmd[800];
   /* the thread-group leader becomes a zombie, the other threads live on; it waits for a line first, so that the
      harness has opened the shared page (a zombie leader's /proc/<pid>/fd is gone) */
   if (main_exits) { if (!fgets(cmd, sizeof cmd, stdin)) return 0; pthread_exit(0); }
@@ -270,6 +272,13 @@ int main(int argc, char **argv) {
       usleep(20000);
       for (int k = first; k < NT; k++) printf(" %d:%lx", T[k].tid, (unsigned long)T[k].sp);
       printf("\n"); fflush(stdout);
+    } else if (cmd[0] == 'f' && cmd[1] == ' ') {
+      /* another file takes the place of the file mapping at a fixed address (a module is replaced by another one) */
+      unsigned long fa; unsigned fp; char hb[600], path[300];
+      if (sscanf(cmd + 2, "%lx %599s %u", &fa, hb, &fp) == 3) { unhex(hb, path, sizeof path); int fd = open(path, O_RDONLY);
+        void *m = fd < 0 ? MAP_FAILED : mmap((void *)fa, (size_t)fp * 4096, PROT_READ | PROT_EXEC, MAP_PRIVATE | MAP_FIXED, fd, 0); if (fd >= 0) close(fd);
+        printf("REMAP %d\n", m == (void *)fa ? 0 : 1); } else printf("REMAP 2\n");
+      fflush(stdout);
     } else if (sscanf(cmd, "m %u %u %u %7s", &i, &mp_off, &mp_pages, mp_perms) == 4 && i < (unsigned)NA) {
       /* change the protection of some pages of anonymous mapping i (its line in /proc/<pid>/maps is split) */
       int rc = mprotect(A[i].p + (size_t)mp_off * 4096, (size_t)mp_pages * 4096, perms_of(mp_perms)); printf("MPROTECT %d\n", rc); fflush(stdout);
